@@ -18,6 +18,8 @@ package main
 // objects then.
 
 import (
+	"crypto/sha256"
+	"encoding/hex"
 	"fmt"
 	"math/rand"
 	"os"
@@ -243,5 +245,34 @@ func (c *cs) stepVersionBranch() {
 	if pushed {
 		c.feat["version-branch"] = true
 		c.run.Count("version_branches_pushed", 1)
+	}
+}
+
+// stepOldPushedBranch: branch `oldb` = one root commit dated 30 days back with two fresh LFS files, pushed to the
+// prune remote, built in a temporary worktree. Its objects are reachable and pushed but outside every retention
+// window and in nobody's checkout: certainly prunable (the verification-shape runs lose one of them on the server).
+func (c *cs) stepOldPushedBranch() {
+	if c.feat["nothing-pushed"] {
+		return
+	}
+	old := c.r
+	c.r = rand.New(rand.NewSource(mix(c.run.Seed, c.cfg.Idx, 12)))
+	defer func() { c.r = old }()
+	tmp := filepath.Join(c.env.Root, "oldbwt")
+	if !c.orphanWorktree(tmp, "oldb") {
+		return
+	}
+	var oids []string
+	for _, p := range []string{c.name("oldb"), "n/" + c.name("oldb")} {
+		b := c.fresh(1 + c.r.Intn(3000))
+		c.write(tmp, p, b)
+		sum := sha256.Sum256(b)
+		oids = append(oids, hex.EncodeToString(sum[:]))
+	}
+	ok := c.commit(tmp, "old pushed branch nobody has checked out", 30) && c.pushTo(c.cfg.PruneRemote(), "push-old-branch", "oldb")
+	c.git(c.main, "worktree-remove", "worktree", "remove", "--force", tmp)
+	if ok {
+		c.oldPushed = oids
+		c.feat["old-pushed-branch"] = true
 	}
 }
